@@ -91,7 +91,11 @@ CFG = {
             "update overlaps in time with a read/artifact call of another thread",
     "trusted": ["tools/lockfacts (go/parser based, purely syntactic extraction of the lock discipline of every method of "
                 "graph.Instance; receiver fields only - state behind nodes/parameters is reached only through calls made "
-                "inside the critical section)",
+                "inside the critical section). It normalises three equivalent idioms to the canonical facts, only when the "
+                "helper is found in the same package and its body is exactly the pattern: `defer r.h()()` with h = "
+                "`mu.Lock(); return mu.Unlock` (or a closure that only unlocks), `r.lock(); defer r.unlock()` through "
+                "one-statement wrappers, `mu.Lock(); defer func(){ mu.Unlock() }()`; every other use of a helper counts "
+                "as extra mutex mentions (fact broken), RLock/RUnlock are never accepted",
                 "the harness's recording: stamps taken immediately before/after the method call from one atomic counter; "
                 "decoding of artifact text / bytes / parameter JSON to numbers; the re-read of retained responses and the "
                 "per-node in-flight counters are harness code (prop_ok only compares what they report)",
